@@ -54,7 +54,7 @@ def flat_cases(ctx, header, check, rows, width, shard=2500, name="flat", timeout
         idx = [int(x) for x in re.findall(r"\d+", m.group(1).replace("%nat", ""))]
         return [k * shard + i for i in idx]
 
-    with ThreadPoolExecutor(max_workers=8) as ex:
+    with ThreadPoolExecutor(max_workers=12) as ex:
         res = list(ex.map(one, range(len(shards))))
     return sorted(i for r in res for i in r)
 
